@@ -43,6 +43,9 @@ type concScenario struct {
 	CancelAfter int      `json:"cancel_after,omitempty"` // cancel the context after this many exchanges were released (-1: when all have arrived)
 	RealFetcher bool     `json:"real_fetcher,omitempty"`
 	Rounds      int      `json:"rounds,omitempty"`
+	// kind "cache-set": the real fetcher with a cache whose Set announces itself and then waits behind a gate
+	Discard    bool `json:"discard_cache_error,omitempty"`
+	CachePanic bool `json:"cache_set_panics,omitempty"` // Set panics once the gate opens
 }
 
 type concResult struct {
@@ -57,6 +60,30 @@ type concResult struct {
 	Ordered            bool     `json:"ordered"`
 	CallersDisagree    string   `json:"callers_disagree,omitempty"`
 	AllArrivedTogether bool     `json:"all_arrived_together"`
+	ReturnedEarly      bool     `json:"returned_while_cache_set_was_running,omitempty"`
+	SetCalls           int      `json:"cache_set_calls,omitempty"`
+}
+
+// gateCache: a cache (always a miss) whose Set announces that it has started and cannot finish until the gate is opened
+type gateCache struct {
+	started chan struct{}
+	gate    chan struct{}
+	panics  bool
+	calls   int32
+}
+
+func (c *gateCache) Get(ctx context.Context, u string) (*corecrl.Bundle, error) {
+	return nil, corecrl.ErrCacheMiss
+}
+
+func (c *gateCache) Set(ctx context.Context, u string, b *corecrl.Bundle) error {
+	atomic.AddInt32(&c.calls, 1)
+	c.started <- struct{}{}
+	<-c.gate
+	if c.panics {
+		panic("injected panic in the cache store")
+	}
+	return errors.New("the store failed")
 }
 
 var concBehaviours = []string{"good", "revoked", "unknown-crl-clean", "unknown-crl-listed", "ocsp-500-crl-clean", "crl-only-clean", "crl-only-listed", "none"}
@@ -306,6 +333,73 @@ func runConcScenario(s concScenario) concResult {
 		}
 		rs, err = v.ValidateContext(ctx, revocation.ValidateContextOptions{CertChain: w.chain, AuthenticSigningTime: w.st})
 		return
+	}
+	if s.Kind == "cache-set" {
+		// everything a check starts is over when it returns — also what it starts inside the fetcher (the write-back of a
+		// downloaded list to the caller's cache), with the error of that write discarded or not
+		hf, err := corecrl.NewHTTPFetcher(&http.Client{Transport: w.tr})
+		if err != nil {
+			panic(err)
+		}
+		gc := &gateCache{started: make(chan struct{}, 64), gate: make(chan struct{}), panics: s.CachePanic}
+		hf.Cache, hf.DiscardCacheError = gc, s.Discard
+		v, e := revocation.NewWithOptions(revocation.Options{OCSPHTTPClient: &http.Client{Transport: w.tr}, CRLFetcher: hf, CertChainPurpose: purpose.CodeSigning})
+		if e != nil {
+			panic(e)
+		}
+		base := runtime.NumGoroutine()
+		type ret struct {
+			rs  []*result.CertRevocationResult
+			err error
+			pv  any
+		}
+		done := make(chan ret, 1)
+		go func() {
+			var x ret
+			defer func() {
+				x.pv = recover()
+				done <- x
+			}()
+			x.rs, x.err = v.ValidateContext(context.Background(), revocation.ValidateContextOptions{CertChain: w.chain, AuthenticSigningTime: w.st})
+		}()
+		select {
+		case <-gc.started:
+		case <-time.After(10 * time.Second):
+			res.Outcome, res.Error = "error", "the cache store was never called"
+			return res
+		}
+		var x ret
+		got := false
+		select {
+		case x = <-done:
+			// the call is over while the store it started is still waiting behind the gate
+			res.ReturnedEarly, got = true, true
+		case <-time.After(300 * time.Millisecond):
+		}
+		close(gc.gate)
+		if !got {
+			select {
+			case x = <-done:
+			case <-time.After(20 * time.Second):
+				res.Outcome, res.Error = "error", "the call did not return within 20 s of the store finishing"
+				return res
+			}
+		}
+		// let a stray store run into its panic (if it is going to) before the verdict is written
+		time.Sleep(50 * time.Millisecond)
+		res.SetCalls = int(atomic.LoadInt32(&gc.calls))
+		switch {
+		case x.pv != nil:
+			res.Outcome, res.Panic = "panic", fmt.Sprint(x.pv)
+		case x.err != nil:
+			res.Outcome, res.Error = "error", x.err.Error()
+		default:
+			res.Outcome, res.Results = "returned", canonResults(x.rs)
+		}
+		if n := waitGoroutines(base, time.Second); n > base {
+			res.Leaked = n - base
+		}
+		return res
 	}
 	if s.Kind == "callers-mixed" {
 		// two overlapping calls share the validator's fetcher and need the same CRLs; the first one is cancelled (or its exchanges
@@ -816,6 +910,14 @@ func genC17(r *Runner) {
 			add(concScenario{Kind: "callers", Mode: "full", Beh: beh, Callers: c, Rounds: 3})
 		}
 	}
+	// the write-back to the caller's cache: slow, failing, panicking; its error discarded or not
+	for _, beh := range [][]string{{"crl-only-clean"}, {"crl-only-listed", "crl-only-clean"}, {"unknown-crl-clean"}} {
+		for _, discard := range []bool{false, true} {
+			for _, pn := range []bool{false, true} {
+				add(concScenario{Kind: "cache-set", Mode: "full", Beh: beh, Discard: discard, CachePanic: pn})
+			}
+		}
+	}
 	// overlapping callers, the first one disturbed while its downloads are in flight
 	for _, beh := range [][]string{{"crl-only-clean"}, {"crl-only-clean", "crl-only-listed"}, {"unknown-crl-clean", "crl-only-clean"}, {"crl-only-listed", "good", "crl-only-clean"}} {
 		add(concScenario{Kind: "callers-mixed", Mode: "full", Beh: beh, CancelAfter: -1})                    // the first caller is cancelled
@@ -897,6 +999,33 @@ func genC17(r *Runner) {
 	var cases []*Case
 	for _, s := range scs {
 		res, have := results[s.ID]
+		if s.Kind == "cache-set" {
+			impl := map[string]any{"outcome": res.Outcome, "returned_while_cache_set_was_running": res.ReturnedEarly, "goroutines_leaked": res.Leaked, "_error": res.Error, "_panic": res.Panic}
+			clause := ""
+			stderr, crashed := crashes[s.ID]
+			switch {
+			case crashed || !have:
+				impl["outcome"], impl["_stderr"] = "process-aborted", stderr
+				clause = "process_killed_from_a_background_goroutine"
+			case res.ReturnedEarly:
+				clause = "check_returned_while_a_goroutine_it_started_was_still_running"
+			case res.Leaked > 0:
+				clause = "goroutines_left_behind"
+			case s.CachePanic && res.Outcome != "panic":
+				clause = "panic_in_caller_supplied_code_did_not_resurface_on_the_caller"
+			case !s.CachePanic && res.Outcome != "returned":
+				clause = "check_with_a_failing_cache_store_did_not_return_results"
+			}
+			if rc, ok := raceOf[s.ID]; ok {
+				impl["data_race"] = rc
+				clause = "data_race"
+			}
+			c := &Case{ID: s.ID, K: "conc", In: map[string]any{"kind": s.Kind, "beh": s.Beh, "discard": s.Discard, "cache_set_panics": s.CachePanic}, Impl: impl,
+				Class: "cache-set/full", Replay: map[string]any{"scenario": s, "how": "harness -c17child < scenario.json (built with -race)"}}
+			c.local, c.localClause = true, clause
+			cases = append(cases, c)
+			continue
+		}
 		m := len(s.Beh)
 		ref := refs[strings.Join(s.Beh, ",")]
 		f := []any{}
